@@ -2375,6 +2375,13 @@ def check(c):
                       % MAX_CLOSED_ARCS,
                       "text front end: byte strings without NUL (the API takes a C string); the Lean lexer/parser model is the repaired scanner (D46, D64)"]
     if not c.lean_obligations():
+        # a theorem / generated-width obligation no longer checks: search for a failing input with the oracle that needs no
+        # model (big-grammar family: closed-form language decided on the FSG the real code produced)
+        try:
+            vlib.build_harness("h_c05")
+            big_grammar_family(c, new_stats())
+        except Exception:
+            pass
         return
     vlib.build_harness("h_c05")
     stats = new_stats()
@@ -2570,7 +2577,16 @@ def big_grammar(style, k, n, seed):
                 seen.add(ph)
                 phrases.append(ph)
     else:
-        phrases = [tuple(f"w{i}x{j}" for j in range(n)) for i in range(k)]
+        # small vocabulary (fsg_model_word_add searches the vocabulary linearly): phrase i spells i in base `base`, one
+        # word per digit position, padded with filler words — distinct phrases, heavily shared words
+        base = r.choice([7, 10, 16])
+        d = 1
+        while base ** d < k:
+            d += 1
+        d = max(d, min(n, 2))
+        fill = ["over", "and", "out", "right", "now", "then", "go", "on"]
+        phrases = [tuple([f"{chr(97 + j)}{(i // base ** j) % base}" for j in range(d)] +
+                         [fill[j % len(fill)] for j in range(max(0, n - d))]) for i in range(k)]
     if style == "rules":
         body = "".join(f"<p{i}> = {' '.join(ph)};\n" for i, ph in enumerate(phrases))
         top = "public <s> = " + " | ".join(f"<p{i}>" for i in range(k)) + ";\n"
@@ -2594,21 +2610,36 @@ def fsg_sim(fsg):
         else:
             word.setdefault((f, w), []).append(t)
 
-    def close(S):
-        S = set(S)
-        todo = list(S)
-        while todo:
-            x = todo.pop()
-            for y in eps.get(x, ()):
-                if y not in S:
-                    S.add(y)
-                    todo.append(y)
-        return S
+    cl = {}
+
+    def eclose(x):
+        r = cl.get(x)
+        if r is None:
+            S, todo = {x}, [x]
+            while todo:
+                y = todo.pop()
+                for z in eps.get(y, ()):
+                    if z not in S:
+                        S.add(z)
+                        todo.append(z)
+            r = cl[x] = frozenset(S)
+        return r
+    steps = {}
+
+    def step(S, w):
+        r = steps.get((S, w))
+        if r is None:
+            T = set()
+            for x in S:
+                for t in word.get((x, w), ()):
+                    T |= eclose(t)
+            r = steps[(S, w)] = frozenset(T)
+        return r
 
     def accepts(sent):
-        S = close([fsg["start"]])
+        S = eclose(fsg["start"])
         for w in sent:
-            S = close([t for x in S for t in word.get((x, w), ())])
+            S = step(S, w)
             if not S:
                 return False
         return fsg["final"] in S
@@ -2674,7 +2705,9 @@ def big_eval(style, k, n, seed, scratch, tag):
     t0 = time.time()
     rc, out, err = vlib.run_bin(binp, stdin_text=f"bigfile {tag} {path} {hx(top)}\n", timeout=1800,
                                 env_extra={"JSGF_PATH": "/nonexistent-verif-c05"})
-    info = {"style": style, "phrases": k, "words_per_phrase": n, "seed": seed, "jsgf_bytes": len(text), "seconds_real_code": round(time.time() - t0, 1)}
+    info = {"style": style, "phrases": k, "words_per_phrase": n, "seed": seed, "jsgf_bytes": len(text), "seconds_real_code": round(time.time() - t0, 1),
+            "alternatives_of_the_top_rule": k, "user_rules": k + 1 if style == "rules" else 1,
+            "generated_group_rules": (2 * k if n > 1 else k) if style == "groups" else 0}
     fsgs = {}
     for l in out.split("\n"):
         w = l.split()
@@ -2719,16 +2752,23 @@ def big_eval(style, k, n, seed, scratch, tag):
 def big_plan(rng, tier):
     """instances (style, k, n): every run crosses 2^16 expansion states; thorough crosses 2^15 / 2^16 / 2^17 with every style"""
     n = rng.choice([7, 9, 12])
-    per = {"flat": n, "shared-vocabulary": n, "rules": n + 3, "groups": n + 6}     # ~ states per phrase
+    per = {"flat": n, "shared-vocabulary": n, "rules": n + 2, "groups": n + 4}     # states per phrase (+ 2 for the top rule)
     plan = []
     if tier == "quick":
         st = rng.choice(BIG_STYLES)
         plan.append((st, (66000 + rng.range(0, 6000)) // per[st] + 1, n))
-        plan.append((rng.choice(BIG_STYLES), (33000 + rng.range(0, 3000)) // per[st] + 1, n))
+        st = rng.choice(BIG_STYLES)
+        plan.append((st, (33000 + rng.range(0, 3000)) // per[st] + 1, n))
+        # a COUNT other than the states crossing 2^15: alternatives of one rule / user rules / generated (group) rules
+        st = rng.choice(["flat", "rules", "groups"])
+        plan.append((st, (33000 if st != "groups" else 16500) + rng.range(0, 1500), 4))
     else:
         for st in BIG_STYLES:
             for target in (33500, 64000, 67000, 132000):
                 plan.append((st, (target + rng.range(0, 4000)) // per[st] + 1, n))
+        for st in ("flat", "rules", "groups"):
+            for cnt in (33000, 66000):
+                plan.append((st, (cnt if st != "groups" else cnt // 2) + rng.range(0, 1500), 4 if cnt < 60000 else 5))
     return plan
 
 
@@ -2756,6 +2796,8 @@ def big_grammar_family(c, stats):
             c.violation(fail, impl)
             break
     stats["big_grammar_family"] = infos
+    if ok and not any(i.get("raw_states", 0) > 65536 for i in infos):
+        c.oblige("input distribution: the big-grammar family contained an expansion of more than 2^16 states", False, infos)
     return ok
 
 
